@@ -520,8 +520,10 @@ fn stress(args: &Args, rep: &mut Report) -> i32 {
     let children = 6;
     let factory = Factory::new();
     let mut broken = 0;
-    for rrdp in [false, true] {
-        let name = if rrdp { "rrdp" } else { "rsync" };
+    // the third mode: the RRDP repository answers 404 (no local copy: the CAs fall back to rsync); the failed
+    // attempt counts as the one fetch of the run, every other CA has to find it recorded
+    for (rrdp, available) in [(false, true), (true, true), (true, false)] {
+        let name = if !rrdp { "rsync" } else if available { "rrdp" } else { "rrdp-unavailable" };
         let bed = TestBed::new();
         let log = Arc::new(FetchLog::default());
         let world = shared_world(rrdp, children);
@@ -534,7 +536,7 @@ fn stress(args: &Args, rep: &mut Report) -> i32 {
             let mut double = RrdpDouble::default();
             let files: Vec<(String, Bytes)> = published.files.iter().filter(|(u, _)| u.starts_with("rsync://shared.verif.test/"))
                 .map(|(u, b)| (u.clone(), b.clone())).collect();
-            double.add("https://shared.verif.test/rrdp/notify.xml", &files);
+            if available { double.add("https://shared.verif.test/rrdp/notify.xml", &files); }
             install_http(Arc::new(double), &log);
             install_rsync(&bed, &log);
             shared_key = "https://shared.verif.test/rrdp/notify.xml".to_string();
